@@ -184,26 +184,24 @@ func (e *Engine) vpCall(st *State, name string, args []Value, site ssa.Instructi
 		}
 		neg := Not(c)
 		r := e.sol.Query(neg)
+		e.sol.EndQuery()
+		if r == "sat" {
+			// a model of every input, consistent with the real library functions, is needed
+			r = e.satRefined(st, neg)
+			if r == "sat" {
+				e.reportFindingInQuery(st, "assert", label, where)
+				e.sol.EndQuery()
+			}
+		}
 		switch r {
 		case "unsat":
 			e.res.Discharged++
+			ret(st, nil)
+			return true
 		case "sat":
-			// a model of every input is needed: re-ask without slicing
-			e.sol.EndQuery()
-			if e.sol.QueryFull(neg) == "sat" {
-				e.reportFindingInQuery(st, "assert", label, where)
-			} else {
-				e.res.Inconclusive++
-				e.res.InconclusiveAt["assert "+label+" (no model of the full path condition)"]++
-			}
 		default:
 			e.res.Inconclusive++
 			e.res.InconclusiveAt["assert "+label]++
-		}
-		e.sol.EndQuery()
-		if r == "unsat" {
-			ret(st, nil)
-			return true
 		}
 		return e.branch(st, []Alt{{Cond: c, Tag: "assert-ok " + label, Do: func(s *State) { ret(s, nil) }}})
 	case "Cover":
